@@ -24,6 +24,8 @@ def call(dn, G, op):
         return G.add_interaction(op[1], op[2], op[3], op[4])
     if kind == "addfrom":
         # a one-shot iterator: the ebunch may be consumed only once (add_path & co. pass zip objects)
+        if len(op[1]) > 50:
+            return G.add_interactions_from([tuple(x) for x in op[1]], op[2], op[3])     # a sized bulk load
         return G.add_interactions_from((tuple(x) for x in op[1]), op[2], op[3])
     if kind in ("path", "star", "cycle"):
         # "nodes: iterable container": lists and one-shot iterators alternate
